@@ -59,10 +59,36 @@ pub fn mlock_refused() -> usize {
 #[derive(Clone, Copy, Debug)]
 pub enum AEv {
     Alloc { addr: usize, size: usize },
-    Release { addr: usize, size: usize, nonzero: usize },
+    /// `beyond`: bytes of a watched secret pattern still present in the block *past* the released size
+    /// (same data pages, outside what the allocator was told it is freeing)
+    Release { addr: usize, size: usize, nonzero: usize, beyond: usize },
 }
 
 const RING: usize = 1 << 14;
+
+/// regions the harness filled with a known zero-free pattern: (data address, length written, pattern seed)
+const NWATCH: usize = 64;
+static mut WATCH: [(usize, usize, u8); NWATCH] = [(0, 0, 0); NWATCH];
+static NWATCHED: AtomicUsize = AtomicUsize::new(0);
+
+pub fn watch(addr: usize, len: usize, seed: u8) {
+    let i = NWATCHED.load(Ordering::SeqCst);
+    if i < NWATCH && addr != 0 {
+        unsafe {
+            (&mut (*std::ptr::addr_of_mut!(WATCH)))[i] = (addr, len, seed);
+        }
+        NWATCHED.store(i + 1, Ordering::SeqCst);
+    }
+}
+
+pub fn watch_clear() {
+    NWATCHED.store(0, Ordering::SeqCst);
+}
+
+#[inline]
+fn pattern_byte(seed: u8, i: usize) -> u8 {
+    1 + ((i as u32 * 7 + seed as u32 * 13) % 255) as u8
+}
 static mut EVENTS: [AEv; RING] = [AEv::Alloc { addr: 0, size: 0 }; RING];
 static NEV: AtomicUsize = AtomicUsize::new(0);
 static OVERFLOW: AtomicUsize = AtomicUsize::new(0);
@@ -76,7 +102,25 @@ fn observer(ev: &verif::Event) {
     }
     let e = match *ev {
         verif::Event::Alloc { addr, size } => AEv::Alloc { addr, size },
-        verif::Event::Release { addr, size, nonzero } => AEv::Release { addr, size, nonzero },
+        verif::Event::Release { addr, size, nonzero } => {
+            // the block is still mapped and writable here (the hook runs immediately before free()):
+            // look past the released size for bytes of a pattern the harness wrote at this address
+            let mut beyond = 0usize;
+            let n = NWATCHED.load(Ordering::SeqCst);
+            for w in unsafe { (&(*std::ptr::addr_of!(WATCH)))[..n].iter() } {
+                if w.0 == addr && w.1 > size {
+                    // stay inside the data pages the allocator reserved for `size` bytes
+                    let pg = osview::page();
+                    let limit = (size + (pg - size % pg)).min(w.1);
+                    for i in size..limit {
+                        if unsafe { std::ptr::read_volatile((addr + i) as *const u8) } == pattern_byte(w.2, i) {
+                            beyond += 1;
+                        }
+                    }
+                }
+            }
+            AEv::Release { addr, size, nonzero, beyond }
+        }
     };
     unsafe {
         (&mut (*std::ptr::addr_of_mut!(EVENTS)))[i] = e;
@@ -454,6 +498,8 @@ pub struct Engine {
     pub allocs: HashMap<usize, usize>,
     pub ever: Vec<(usize, usize)>,
     pub releases_nonzero: Vec<(usize, usize, usize)>,
+    /// (addr, size, watched pattern bytes found past the released size)
+    pub releases_beyond: Vec<(usize, usize, usize)>,
     pub releases_seen: usize,
     pub trace: Vec<String>,
     pub use_fork: bool,
@@ -468,7 +514,7 @@ pub struct Engine {
 
 pub fn pattern(seed: u8, len: usize) -> Vec<u8> {
     // zero-free "secret" pattern
-    (0..len).map(|i| 1 + ((i as u32 * 7 + seed as u32 * 13) % 255) as u8).collect()
+    (0..len).map(|i| pattern_byte(seed, i)).collect()
 }
 
 impl Engine {
@@ -484,6 +530,7 @@ impl Engine {
             allocs: HashMap::new(),
             ever: Vec::new(),
             releases_nonzero: Vec::new(),
+            releases_beyond: Vec::new(),
             releases_seen: 0,
             trace: Vec::new(),
             use_fork,
@@ -500,6 +547,8 @@ impl Engine {
         self.trace.clear();
         self.ever.clear();
         self.releases_nonzero.clear();
+        self.releases_beyond.clear();
+        watch_clear();
         self.releases_seen = 0;
         self.fill = 1;
     }
@@ -511,11 +560,15 @@ impl Engine {
                     self.allocs.insert(addr, size);
                     self.ever.push((addr, size));
                 }
-                AEv::Release { addr, size, nonzero } => {
+                AEv::Release { addr, size, nonzero, beyond } => {
                     self.allocs.remove(&addr);
                     self.releases_seen += 1;
                     if nonzero > 0 {
                         self.releases_nonzero.push((addr, size, nonzero));
+                    }
+                    // 8 or more matching bytes: chance agreement with stale heap garbage is negligible
+                    if beyond >= 8 {
+                        self.releases_beyond.push((addr, size, beyond));
                     }
                 }
             }
